@@ -212,6 +212,10 @@ func Concretise(q Req, r *rand.Rand, model string) *Concrete {
 		c.Names[i] = []string{"get_", "Run-", "x"}[r.Intn(3)] + randAlnum(r, 1+r.Intn(12))
 		c.Schemas[i] = roundTrip(randSchema(r))
 	}
+	for c.IDs[2] == c.IDs[1] || c.Names[2] == c.Names[1] { // the two ids / names stand for different things
+		c.IDs[2] = "toolu_" + randAlnum(r, 12)
+		c.Names[2] = "y" + randAlnum(r, 1+r.Intn(12))
+	}
 	c.Desc = "desc " + randStr(r, 1, 20)
 	c.Args[0] = map[string]any{}
 	text := func(tok int) string {
@@ -300,6 +304,9 @@ func Concretise(q Req, r *rand.Rand, model string) *Concrete {
 			kvs := []kv{{"name", c.Names[k]}, {"input_schema", c.Schemas[k]}}
 			if k == 1 {
 				kvs = append(kvs, kv{"description", c.Desc})
+			}
+			if cfg.Extra == "toolcc" { // prompt-caching marker on a tool definition (legal for the Anthropic API)
+				kvs = append(kvs, kv{"cache_control", map[string]any{"type": "ephemeral"}})
 			}
 			tools = append(tools, obj(r, true, kvs...))
 		}
